@@ -274,7 +274,7 @@ func c07One(sc *c07Scn, idx int) verdict {
 
 	if sc.State != "open-fails" {
 		s.pipe.WaitDrained(time.Second)
-		time.Sleep(2 * time.Millisecond)
+		time.Sleep(2*time.Millisecond + 3*rd) // the read loop is back in its (blocking) transport read
 	}
 
 	if sc.CloseErr {
